@@ -1,5 +1,6 @@
 """C03 -- fast path and diagnostic path always agree."""
 import convprop
+import gen
 from terms import term_head
 
 PROP = 'C03'
@@ -33,7 +34,7 @@ def run(ctx, out):
     out.rule = ('grammar-directed types (depth <= 3 quick / 4 thorough) x values from three streams (valid from the type / one or two '
                 'type-blind edits of a valid value / arbitrary); both passes called directly on the converter and through from_data. '
                 'Non-trivial = non-leaf type; distinct by (type term, value).')
-    convprop.run(ctx, out, PROP, monitor, cfg={'weights': {'cond': 2.0, 'tagged': 1.2, 'class': 2.2, 'std': 1.5}, 'enum_tuple': True})
+    convprop.run(ctx, out, PROP, monitor, cfg={'weights': {'cond': 2.0, 'tagged': 1.2, 'class': 2.2, 'std': 1.5}, 'enum_tuple': True}, extra_cases=lambda rng: convprop.cases_from_pairs(gen.tagged_shape_cases(rng), rng, 'tagged-shapes'))
 
 
 def replay(rep, out):
